@@ -60,6 +60,10 @@ CHECKS = {
  "C09": ("exploration", "bounded-exhaustive enumeration of all ordered pairs of a 35-schema alphabet plus property-based pairs from the evolution generator; soundness-by-reading, safe-step, reflexivity, symmetry and determinism oracles",
          "Verdict Full implies that sampled edge-biased values written with W read with R; pairs built from always-safe steps are never reported incompatible; every schema is compatible with itself; mutual_read is symmetric; verdicts are repeatable and address-independent.",
          "Soundness is sampled with 5-8 values per pair; failures are attributed to root-cause classes by causal re-tests.", "DESIGN.md §4 C09"),
+
+ "C05": ("exploration", "structure-aware hostile input generation plus bounded-exhaustive short inputs, run in one child process per allocation limit with a counting global allocator, panic capture, element-count work bounds and abort attribution by in-flight replay",
+         "Every reading entry point on hostile datums, container files and decompression bombs under limits 4 KiB / 64 KiB / 1 MiB (16 MiB thorough): no panic, no abort, visited elements bounded by input size + limit, no single allocation above max(limit, 64 x input) + slack.",
+         "Allocation is measured per calling thread; constant-size codec state is allowed 256 KiB of slack; data nesting depth is bounded by the generator; a true hang would show as a child that never returns.", "DESIGN.md §4 C05"),
 }
 NOT_YET = {}
 
